@@ -3,7 +3,102 @@ import GnpyModel
 /- driver handlers for property C03 (ops are named "c03.<name>") -/
 open Lean
 namespace Gnpy.Drv.C03
+open Gnpy.Gn
 
-def handlers : List (String × Handler) := []
+def getPair (j : Json) : R (Float × Float) := do
+  match ← getArr j with
+  | [a, b] => return (← getF a, ← getF b)
+  | _ => throw "pair expected"
+
+/-- the fibre description as it is given to `FiberParams` (loss in dB/km, length with its unit) -/
+def getFibre (j : Json) : R (Fibre Float) := do
+  let len := Gnpy.Fiber.convertLength (← fF j "length") (← fBool j "km")
+  let refKind ← fStr j "ref_kind"
+  let refVal ← fOpt getF j "ref_value"
+  let spec : RefSpec Float :=
+    match refKind, refVal with
+    | "wavelength", some v => .wavelength v
+    | "frequency", some v => .frequency v
+    | _, _ => .default
+  let (wl, fr) := refPair spec
+  let dispTable ← fList getPair j "disp_table"
+  let disp0 ← fF j "disp0"
+  let slope ← fOpt getF j "slope"
+  let ea ← fOpt getF j "eff_area"
+  let g ← fOpt getF j "gamma"
+  let lossTable ← fList getPair j "loss_table"
+  let loss0 ← fF j "loss0"
+  let milli : Float := 1.0 / 1000.0
+  return { len := len, refWl := wl, refF := fr, dispTable := dispTable, disp0 := disp0, slope := slope,
+           fDispRef := fr, effArea := resolveEffArea ea g wl,
+           lossTable := lossTable.map (fun kv => (kv.1, kv.2 * milli)), loss0 := loss0 * milli }
+
+def zip3 : List Float → List Float → List Float → List (Float × Float × Float)
+  | f :: fs, b :: bs, p :: ps => (f, b, p) :: zip3 fs bs ps
+  | _, _, _ => []
+
+/-- `NliSolver.compute_nli` (+ the coefficients it reads) on a spectrum sorted by frequency -/
+def nliH (j : Json) : R Json := do
+  let fib ← getFibre (← fld j "fibre")
+  let f ← fList getF j "f"
+  let b ← fList getF j "b"
+  let p ← fList getF j "p"
+  match loadAll fib (zip3 f b p) with
+  | none => return jObj [("error", jStr "SpectrumError")]
+  | some cs =>
+    return jObj [("alpha", jList jF (cs.map (·.alpha))), ("beta2", jList jF (cs.map (·.beta2))),
+                 ("gamma", jList jF (cs.map (·.gamma))), ("eff_area", jF fib.effArea),
+                 ("ref_f", jF fib.refF), ("len", jF fib.len),
+                 ("nli", jList jF (nli fib.len cs)), ("nli_spec", jList jF (nliSpec fib.len cs))]
+
+/-- constructor (argsort by frequency) + `compute_nli` on channels supplied in any order -/
+def nliAnyH (j : Json) : R Json := do
+  let fib ← getFibre (← fld j "fibre")
+  let f ← fList getF j "f"
+  let b ← fList getF j "b"
+  let p ← fList getF j "p"
+  match computeNliAny fib (zip3 f b p) with
+  | none => return jObj [("error", jStr "SpectrumError")]
+  | some n => return jObj [("nli", jList jF n)]
+
+/-- the NLI share after `Fiber.__call__`: `nli / pch` evaluated on the powers behind the input connector -/
+def ratioH (j : Json) : R Json := do
+  let fib ← getFibre (← fld j "fibre")
+  let att ← fF j "att_in_db"
+  let f ← fList getF j "f"
+  let b ← fList getF j "b"
+  let p ← fList getF j "p"
+  let p1 := p.map (fun x => Gnpy.Fiber.applyAttDb x att)
+  match loadAll fib (zip3 f b p1) with
+  | none => return jObj [("error", jStr "SpectrumError")]
+  | some cs =>
+    let n := nli fib.len cs
+    return jObj [("ratio", jList jF ((n.zip p1).map (fun x => x.1 / x.2)))]
+
+/-- one entry of the psi / eta matrices (diagnosis of a mismatch) -/
+def psiH (j : Json) : R Json := do
+  let fib ← getFibre (← fld j "fibre")
+  let f ← fList getF j "f"
+  let b ← fList getF j "b"
+  let p ← fList getF j "p"
+  let i ← fNat j "i"
+  let k ← fNat j "j"
+  match loadAll fib (zip3 f b p) with
+  | none => return jObj [("error", jStr "SpectrumError")]
+  | some cs =>
+    match cs[i]?, cs[k]? with
+    | some ci, some cj => return jObj [("psi", jF (psi fib.len ci cj)),
+                                         ("eta", jF (eta (if i = k then spmW else xpmW) fib.len ci cj))]
+    | _, _ => throw "index"
+
+/-- the constructor's overlap / baud-rate checks on the frequency-sorted comb -/
+def combH (j : Json) : R Json := do
+  let f ← fList getF j "f"
+  let b ← fList getF j "b"
+  let s ← fList getF j "slot"
+  return jBool (combAccepted (zip3 f b s))
+
+def handlers : List (String × Handler) :=
+  [("c03.nli", nliH), ("c03.nli_any", nliAnyH), ("c03.ratio", ratioH), ("c03.psi", psiH), ("c03.comb", combH)]
 
 end Gnpy.Drv.C03
